@@ -264,11 +264,27 @@ def check_tmpl(cx, chk):
     evs = templates.events(cx, cg, b)
     rows = finite.return_table(b)
     seen = {}
-    H = lambda n: ("hole", n)
-    skip_pat = ["parse_Whitespace", ("group", "Parenthesis", [H("state"), ",", "&", "mut", "*", "global"]), ".", "and_then",
-                ("group", "Parenthesis", ["|", "ParseOk", ("group", "Brace", [("var", "st"), ",", ".."]), "|",
-                                          ("group", "Brace", [H("fn"), ("group", "Parenthesis", [("var", "st"), ",", H("params")])])])]
-    plain_pat = [H("fn"), ("group", "Parenthesis", [H("state"), ",", H("params")])]
+
+    def pairs(toks, out=None):
+        """(token, the group that follows it or None, position) for every token, groups included, in emission order."""
+        out = out if out is not None else []
+        for k, t in enumerate(toks):
+            nxt = toks[k + 1] if k + 1 < len(toks) and toks[k + 1][0] == "group" else None
+            out.append((t, nxt))
+            if t[0] == "group":
+                pairs(t[2], out)
+        return out
+
+    def state_hole_ok(st):
+        # the state hole: a local holding the tokens `state` or `state.clone()` depending on clone_state
+        if st[0] != "local":
+            return False
+        alts = set()
+        for d in b.defs.get(st[1], []):
+            src = norm(b.expr_rv(d[3])) if d[2] == "rv" else None
+            if src is not None and src[0] == "local":
+                alts.add(templates.show_tokens(templates.stream_tokens(b, evs, src[1])))
+        return alts >= {"state"} and all(a_.replace(" ", "") in ("state", "state.clone()") for a_ in alts)
     for (atoms, v, pth) in rows:
         flag = [val for (e, val) in atoms if e[0] == "field" and e[2] == "skip_whitespace"]
         if len(flag) != 1 or v is None:
@@ -278,27 +294,45 @@ def check_tmpl(cx, chk):
             chk.violation("C08.tmpl", "return-shape", "skip helper does not return a quoted token stream: %s" % mir.show(S), cx.site(b))
             continue
         toks = templates.stream_tokens(b, evs, S[1])
-        m = templates.match_tokens(toks, skip_pat if flag[0] else plain_pat)
-        okk = False
-        if m is not None:
-            fn = m["fn"]
-            okk = is_call(fn, "safe_ident") and fn[2][0] == ("param", 2) and m["params"] == ("param", 3)
-            st = m["state"]
-            # state hole: local holding `state` or `state.clone()` depending on clone_state
-            if okk and st[0] == "local":
-                alts = set()
-                for d in b.defs.get(st[1], []):
-                    src = norm(b.expr_rv(d[3])) if d[2] == "rv" else None
-                    if src is not None and src[0] == "local":
-                        alts.add(templates.show_tokens(templates.stream_tokens(b, evs, src[1])))
-                if alts != {"state", "state . clone ( )"} and alts != {"state", "state . clone (  )"}:
-                    okk = alts >= {"state"} and all(a.replace(" ", "") in ("state", "state.clone()") for a in alts)
+        ps_ = pairs(toks)
+        is_fn = lambda t: t[0] == "hole" and is_call(t[1], "safe_ident") and t[1][2] and t[1][2][0] == ("param", 2)
+        ws = [(k, t, g) for k, (t, g) in enumerate(ps_) if t == ("ident", "parse_Whitespace")]
+        fns = [(k, t, g) for k, (t, g) in enumerate(ps_) if is_fn(t)]
+        probs = []
+        if len(fns) != 1 or fns[0][2] is None:
+            probs.append("the atom parser `#parse_fn_ident(..)` is not called exactly once")
+        else:
+            fk, ft, fg = fns[0]
+            inner = fg[2]
+            first = inner[0] if inner else None
+            has_params = any(t == ("hole", ("param", 3)) for (t, g) in pairs(inner))
+            if not has_params:
+                probs.append("the additional parameters are not passed to the atom parser")
+            if flag[0]:
+                if len(ws) != 1 or ws[0][2] is None:
+                    probs.append("the whitespace skipper is not called exactly once")
+                else:
+                    wk, wt, wg = ws[0]
+                    w_first = wg[2][0] if wg[2] else None
+                    if not (w_first is not None and w_first[0] == "hole" and state_hole_ok(w_first[1])):
+                        probs.append("the whitespace skipper is not started from the incoming state")
+                    if wk > fk:
+                        probs.append("the atom parser is emitted before the whitespace skipper")
+                    if first is None or first[0] != "ident" or first[1] in ("state",) and False:
+                        probs.append("the atom parser does not start from a state bound from the skipper's result: %s" % (templates.show_tokens([first]) if first else "?"))
+                    elif first[0] == "hole":
+                        probs.append("the atom parser starts from the incoming state, not from the skipped one")
+            else:
+                if ws:
+                    probs.append("whitespace is skipped although skip_whitespace is false")
+                if not (first is not None and first[0] == "hole" and state_hole_ok(first[1])):
+                    probs.append("the atom parser is not started from the incoming state")
         key = "flag=%s" % flag[0]
-        if okk:
+        if not probs:
             seen[key] = templates.show_tokens(toks)
         else:
-            chk.violation("C08.tmpl", key, "the skip helper's template for skip_whitespace=%s is not the expected one: %s"
-                          % (flag[0], templates.show_tokens(toks)), cx.site(b))
+            chk.violation("C08.tmpl", key, "the skip helper's template for skip_whitespace=%s: %s - %s"
+                          % (flag[0], "; ".join(probs), templates.show_tokens(toks)[:300]), cx.site(b))
     for key in ("flag=True", "flag=False"):
         if key in seen:
             chk.ok("C08.tmpl", key, {"branch": key, "template": seen[key]})
@@ -362,7 +396,37 @@ def check_set(cx, chk):
                       "9,10,12,13,32), advance=%s, always Ok=%s" % (sorted(cls) if isinstance(cls, set) else cls, mir.show(length), always_ok), cx.site(b, i))
 
 
+def skeleton(t):
+    """The whitespace skeleton of a canonical parser term: structure and skip items kept, every other leaf is `atom`."""
+    if not isinstance(t, tuple) or not t:
+        return t
+    k = t[0]
+    if t == ("ref", "Whitespace"):
+        return t
+    if k in ("seq", "choice"):
+        return (k, tuple(skeleton(x) for x in t[1]))
+    if k in ("opt", "star", "plus", "not", "and"):
+        return (k, skeleton(t[1]))
+    if k == "empty":
+        return t
+    return ("ref", "atom")
+
+
+def count_ws(t):
+    if not isinstance(t, tuple) or not t:
+        return 0
+    if t == ("ref", "Whitespace"):
+        return 1
+    if t[0] in ("seq", "choice"):
+        return sum(count_ws(x) for x in t[1])
+    if t[0] in ("opt", "star", "plus", "not", "and"):
+        return count_ws(t[1])
+    return 0
+
+
 def check_shadow_and_inst(cx, chk):
+    from .. import lift, lift2
+    lifters = {}
     n_skip = n_noskip = 0
     atoms = atom_names(cx) - {"parse_Whitespace"}
     for inst in cx.instances():
@@ -396,69 +460,43 @@ def check_shadow_and_inst(cx, chk):
                             chk.violation("C08.shadow", "%s/%s foreign-skipper" % (inst.name, rule), "whitespace skipper resolves to %s" % f["path"], cx.site(b, i))
                     elif l in atoms or (l.startswith("parse_") and mir.strip_generics(f["path"]) == inst.prefix + "::" + l) or l == "parse_char":
                         atom_calls.append((b, i, t))
-            def feeds_and_then(b, i, t):
-                dest = t["dest"]["l"]
-                for j, tt in b.calls():
-                    if last(tt["func"]["path"]) == "and_then" and tt["args"] and "place" in tt["args"][0] and tt["args"][0]["place"]["l"] == dest:
-                        return True
-                return False
-            skips = [(b, i, t) for (b, i, t) in ws_calls if feeds_and_then(b, i, t)]
-            atom_calls += [(b, i, t) for (b, i, t) in ws_calls if not feeds_and_then(b, i, t)]
-            ws_calls = skips
             tag = "%s/%s" % (inst.name, rule)
-            # oracle: the grammar text says which rules skip
+            # oracle: the grammar text says which rules skip; the generated side is the lifted term of the rule (lift2), both
+            # projected onto their whitespace skeleton (every terminal / rule reference becomes `atom`)
             g = cx.grammar_of(inst)
             gr = g.rule(rule) if g is not None else None
-            if gr is not None and gr.kind == "rule":
-                want_skip = "no_skip_ws" not in gr.flags
-                has_atoms = bool(atom_calls) or bool(ws_calls)
-                if has_atoms and want_skip != bool(ws_calls):
-                    b0, i0 = (atom_calls or ws_calls)[0][0], (atom_calls or ws_calls)[0][1]
+            if g is None:
+                chk.violation("C08.inst", "%s grammar-unreadable" % inst.name, "cannot read the grammar of %s" % inst.name)
+                continue
+            if gr is None or gr.kind != "rule":
+                continue
+            want_skip = "no_skip_ws" not in gr.flags
+            L = lifters.get(inst.name)
+            if L is None:
+                L = lifters[inst.name] = lift2.Lifter(cx, inst)
+            try:
+                got = L.lift_rule(rule)
+                want = lift2.canon(lift.expected_rule_term(g, gr))
+            except lift.Unliftable as ex:
+                chk.violation("C08.inst", "%s UNLIFTABLE" % tag, "the rule's generated code could not be lifted to a parser term: %s" % ex)
+                continue
+            sg, sw = skeleton(got), skeleton(want)
+            if want_skip:
+                n_skip += 1
+            else:
+                n_noskip += 1
+            if sg == sw:
+                chk.ok("C08.inst", tag + (" skip" if want_skip else " noskip"), {"rule": tag, "skips": count_ws(sg)})
+            else:
+                skips_g, skips_w = count_ws(sg), count_ws(sw)
+                if (skips_g > 0) != (skips_w > 0):
                     chk.violation("C08.inst", "%s mode-mismatch" % tag,
                                   "rule %s is %s in the grammar but its generated code %s whitespace" % (
-                                      rule, "skipping" if want_skip else "@no_skip_ws", "skips" if ws_calls else "never skips"), cx.site(b0, i0))
-            elif g is None:
-                chk.violation("C08.inst", "%s grammar-unreadable" % inst.name, "cannot read the grammar of %s" % inst.name)
-            if not ws_calls:
-                n_noskip += 1
-                chk.ok("C08.inst", tag + " noskip", None)
-                continue
-            n_skip += 1
-            # skipping rule: every atom call is the body of a closure passed to and_then(parse_Whitespace(..), closure)
-            probs = []
-            for (b, i, t) in atom_calls:
-                if not b.is_closure:
-                    probs.append((b, i, "atom %s is called without a preceding whitespace skip" % short(t["func"]["path"])))
-                    continue
-                uses = common.closure_uses(cx, inst.crate, b)
-                okc = False
-                for (pb, bi, tt, ai) in uses:
-                    if last(tt["func"]["path"]) == "and_then" and ai == 1:
-                        recv = norm(pb.expr_op(tt["args"][0]))
-                        if is_call(recv, "parse_Whitespace"):
-                            okc = True
-                            # the atom must start from the skipper's resulting state
-                            st0 = norm(b.expr_op(t["args"][0]))
-                            if not (st0[0] == "field" and st0[2] == "state" and st0[1] == ("param", 2)):
-                                probs.append((b, i, "atom %s does not start from the state the skipper returned: %s" % (short(t["func"]["path"]), mir.show(st0))))
-                if not okc:
-                    probs.append((b, i, "atom %s is not the continuation of a whitespace skip" % short(t["func"]["path"])))
-            for (b, i, t) in ws_calls:
-                # result must feed and_then
-                dest = t["dest"]["l"]
-                fed = False
-                for j, tt in b.calls():
-                    if last(tt["func"]["path"]) == "and_then" and tt["args"] and "place" in tt["args"][0] and tt["args"][0]["place"]["l"] == dest:
-                        fed = True
-                if not fed:
-                    probs.append((b, i, "a whitespace skip is not followed by an atom (skip at a point that is not before a token)"))
-            if len(ws_calls) != len(atom_calls):
-                probs.append((ws_calls[0][0], ws_calls[0][1], "%d whitespace skips for %d atoms" % (len(ws_calls), len(atom_calls))))
-            if probs:
-                for (b, i, msg) in probs[:3]:
-                    chk.violation("C08.inst", "%s %s" % (tag, re.sub(r"parse_\w+", "parse_X", msg)[:60]), msg, cx.site(b, i))
-            else:
-                chk.ok("C08.inst", tag + " skip", {"rule": tag, "atoms": len(atom_calls), "skips": len(ws_calls)})
+                                      rule, "skipping" if want_skip else "@no_skip_ws", "skips" if skips_g else "never skips"))
+                else:
+                    chk.violation("C08.inst", "%s skip-placement" % tag,
+                                  "rule %s: whitespace is skipped at other points than before every token: generated %s, grammar %s"
+                                  % (rule, lift.show_term(sg)[:160], lift.show_term(sw)[:160]))
     chk.floor("C08.inst", "skipping rules", n_skip, 221)
     chk.floor("C08.inst", "non-skipping rules", n_noskip, 38)
     chk.extra["skipping_rules"] = n_skip
